@@ -81,6 +81,43 @@ def product_sites(run, f, order=None, floor=None, rule='R7'):
     for s in sites:
         pair.check_site(run, s, order=order, rule=rule)
     if floor is not None and len(sites) < floor and not run._new_findings():
+        # no product site although phases still accumulate i-powers: an ordered product needs its partial products - ipow of a
+        # string that the loop never multiplies by the rows gives pairwise signs, which cancel
+        import ast
+        from ..flow import walk
+        from ..model import norm
+        for st, ctx in walk(f.node):
+            if not (isinstance(st, (ast.Assign, ast.AugAssign)) and ctx.loops):
+                continue
+            tgt = st.targets[0] if isinstance(st, ast.Assign) else st.target
+            if not (isinstance(tgt, ast.Name) and tgt.id.startswith('p') and any(isinstance(x, ast.Name) and x.id == tgt.id for x in ast.walk(st.value))
+                    or isinstance(st, ast.AugAssign) and isinstance(tgt, ast.Name) and tgt.id.startswith('p')):
+                continue
+            for c in pair.ipow_calls(st.value):
+                loop = ctx.loops[-1]
+                lvars = {x.id for x in ast.walk(loop.target) if isinstance(x, ast.Name)} if isinstance(loop, ast.For) else set()
+                stored = set()
+                for s2 in ast.walk(loop):
+                    if isinstance(s2, (ast.Assign, ast.AugAssign)):
+                        for t in (s2.targets if isinstance(s2, ast.Assign) else [s2.target]):
+                            r = t
+                            while isinstance(r, (ast.Subscript, ast.Attribute)):
+                                r = r.value
+                            if isinstance(r, ast.Name):
+                                stored.add(r.id)
+                ops = []
+                for a in c.args:
+                    r = a
+                    while isinstance(r, (ast.Subscript, ast.Attribute)):
+                        r = r.value
+                    ops.append((a, r.id if isinstance(r, ast.Name) else None, any(isinstance(x, ast.Name) and x.id in lvars for x in ast.walk(a))))
+                rows = [o for o in ops if o[2]]
+                fixed = [o for o in ops if not o[2] and o[1] is not None and o[1] not in stored]
+                if len(rows) == 1 and len(fixed) == 1:
+                    run.violation(rule + 'b', f, st, 'the phase accumulates ipow(%s, %s) over the rows, but %s is never multiplied by those rows inside the loop: '
+                                  'the sign of an ordered product needs the running product as the left factor (pairwise i-powers with the final '
+                                  'string cancel)' % (norm(c.args[0]), norm(c.args[1]), norm(fixed[0][0])))
+                    return sites
         raise AnalysisError('%s::%s: %d Pauli product site(s) recognised, %d confirmed by hand' % (
             f.rel, f.qual, len(sites), floor))
     return sites
@@ -128,6 +165,18 @@ def mask_function(run, repo, rel, rule='R13.maskfn'):
     run.check(ok, rule, f, allocs[0] if allocs else 'zeros(N, bool)', 'the mask is a boolean vector with one entry per qubit of the register (zeros(%s, dtype=bool))' % n)
     if not allocs:
         return
+    # the qubits reach the store as given (or through a plain array / tensor conversion): an explicit integer conversion turns a
+    # boolean region mask into the indices 0 / 1
+    for st, _ in walk(f.node):
+        for c in ast.walk(st):
+            if isinstance(c, ast.Call) and norm(c.func).split('.')[-1] in ('as_tensor', 'tensor', 'array', 'asarray', 'astype', 'to', 'long', 'int') \
+                    and any(isinstance(x, ast.Name) and x.id == q for x in ast.walk(c)):
+                conv = [k for k in c.keywords if k.arg == 'dtype' and any(w in norm(k.value) for w in ('long', 'int'))] or \
+                    ([c] if norm(c.func).split('.')[-1] in ('long', 'int') else []) or \
+                    ([c] if norm(c.func).split('.')[-1] in ('astype', 'to') and c.args and any(w in norm(c.args[0]) for w in ('long', 'int')) else [])
+                if conv:
+                    run.violation(rule, f, c, 'the qubits are converted to integers before they index the mask: a boolean region mask (the documented ~mask idiom) '
+                                  'then selects qubits 0 and 1 instead of the marked ones')
     mv = norm(allocs[0].targets[0])
     stores = [st for st, _ in walk(f.node) if isinstance(st, ast.Assign) and isinstance(st.targets[0], ast.Subscript) and norm(st.targets[0].value) == mv]
     ok = len(stores) == 1 and isinstance(stores[0].value, ast.Constant) and stores[0].value.value is True
